@@ -2,6 +2,7 @@ from __future__ import annotations
 
 from typing import Any, Optional, Sequence, Type
 
+import numpy as np
 from sklearn.cluster import Birch
 from sklearn.tree._tree import Tree
 
@@ -224,6 +225,19 @@ class TreeNode(ReduceNode):
     ) -> None:
         self.trusted = self._get_trusted(trusted, [get_module(Tree) + ".Tree"])
         super().__init__(state, load_context, constructor=Tree, trusted=self.trusted)
+
+    def _construct(self):
+        # Tree.__setstate__ is native code that takes it for granted that these
+        # two entries are arrays; anything else crashes the interpreter
+        attrs = self.children["attrs"].construct()
+        if isinstance(attrs, dict):
+            for key in ("nodes", "values"):
+                if key in attrs and not isinstance(attrs[key], np.ndarray):
+                    raise TypeError(
+                        f"Expected an array for the {key!r} of a Tree, got "
+                        f"{type(attrs[key])}"
+                    )
+        return super()._construct()
 
 
 def loss_get_state(obj: Any, save_context: SaveContext) -> dict[str, Any]:
